@@ -84,6 +84,7 @@ type frame struct {
 }
 
 type Interp struct {
+	rwCond *Obj // the Condition object behind go-runewidth's DefaultCondition (created on first use in a path)
 	jsonErr string // set by jsonValue when encoding/json rejects a value (NaN, infinities)
 	prog    *ssa.Program
 	ld      *Loaded
@@ -709,7 +710,7 @@ func (in *Interp) get(fr *frame, v ssa.Value) Value {
 	case *ssa.Global:
 		if x.Pkg != nil && !in.ld.isModulePkg(x.Pkg.Pkg) && !lazyInitPkgs[x.Pkg.Pkg.Path()] && in.runningExtInit == 0 {
 			// package-level state of a library whose initialiser the engine does not run
-			if !benignGlobals[x.Pkg.Pkg.Path()] {
+			if !benignGlobals[x.Pkg.Pkg.Path()] && x.String() != runewidthDefaultCondition {
 				in.unsupported("package-level variable of a library outside the model: " + x.String())
 			}
 		}
@@ -732,8 +733,66 @@ func (in *Interp) global(g *ssa.Global) *Obj {
 	}
 	et := g.Type().(*types.Pointer).Elem()
 	o := in.newObj(et, in.zero(et), "global "+g.String())
+	if g.String() == runewidthDefaultCondition {
+		// *Condition pointing at the package's condition object, as go-runewidth's init leaves it in a
+		// non-East-Asian environment (harnesses make the flag an input with vfRunewidthEastAsian)
+		ct := et.(*types.Pointer).Elem()
+		sv := in.zero(ct).(*StructV)
+		st := ct.Underlying().(*types.Struct)
+		nf := append([]Value(nil), sv.f...)
+		for i := 0; i < st.NumFields(); i++ {
+			if st.Field(i).Name() == "StrictEmojiNeutral" {
+				nf[i] = in.tt.tT
+			}
+		}
+		in.rwCond = in.newObj(ct, &StructV{f: nf}, "runewidth condition")
+		o.v = PtrV{obj: in.rwCond}
+	}
 	in.globals[g] = o
 	return o
+}
+
+const runewidthDefaultCondition = "github.com/mattn/go-runewidth.DefaultCondition"
+
+// rwEastAsian returns the current value of DefaultCondition.EastAsianWidth (false unless the code or
+// the harness set it).
+func (in *Interp) rwEastAsian() *Term {
+	if in.rwCond == nil {
+		return in.tt.tF
+	}
+	sv := in.rwCond.v.(*StructV)
+	st := in.rwCond.typ.Underlying().(*types.Struct)
+	for i := 0; i < st.NumFields(); i++ {
+		if st.Field(i).Name() == "EastAsianWidth" {
+			return sv.f[i].(*Term)
+		}
+	}
+	return in.tt.tF
+}
+
+// setRwEastAsian stores the flag (harness: the environment chose it before the program started).
+func (in *Interp) setRwEastAsian(b *Term) {
+	if in.rwCond == nil {
+		for _, pkg := range in.ld.prog.AllPackages() {
+			if pkg.Pkg.Path() == "github.com/mattn/go-runewidth" {
+				if g, ok := pkg.Members["DefaultCondition"].(*ssa.Global); ok {
+					in.global(g)
+				}
+			}
+		}
+	}
+	if in.rwCond == nil {
+		in.unsupported("go-runewidth is not part of the program")
+	}
+	sv := in.rwCond.v.(*StructV)
+	st := in.rwCond.typ.Underlying().(*types.Struct)
+	nf := append([]Value(nil), sv.f...)
+	for i := 0; i < st.NumFields(); i++ {
+		if st.Field(i).Name() == "EastAsianWidth" {
+			nf[i] = b
+		}
+	}
+	in.rwCond.v = &StructV{f: nf}
 }
 
 // ---------- equality
